@@ -3,6 +3,7 @@ import LibconfigModel.ReadFault
 import LibconfigModel.Containers
 import LibconfigModel.WF
 import LibconfigModel.Locale
+import LibconfigModel.LocaleThreads
 import LibconfigModel.Alloc
 import LibconfigModel.Cpp   -- C17
 /-
@@ -463,10 +464,22 @@ def stepLine (st : State) (w : List String) : State × String :=
         (r2.ok, applyRadix radix (r2.cfg.write Generated.FLOAT_BUF_SIZE))
       (st, s!"{b2s rd.ok} {hex out} {b2s r2.1} {b2s (r2.2 == out)} {b2s (l2.thread == l.thread)} {b2s (l2.globalRadix == l.globalRadix)} {l.effective} {l2.effective}")
     | _, _, _ => (st, "bad-op")
-  | ["locoverlap", _, _] =>
-    -- C15 x C14: the override is per call and per thread (C15_inside for each thread's own locale state; C14_independent):
-    -- both reads see '.', both values are exact, the text is the C-locale text, both threads' locales are kept
-    (st, "1 7750 1 1500 2250 " ++ hex (bytesOfString "a = 1.5;\nb = 2.25;\n") ++ " 1")
+  | ["locoverlap", g, t] =>
+    -- C15 x C14: the multi-thread locale model (LocaleThreads.lean; theorems C15T_inside / C15T_outer / C15T_global) run on
+    -- the scenario's schedule; the radix each thread has at each point decides what strtod reads and what printf writes
+    let gr := if g == "1" then 44 else 46
+    let th : Nat → Option Nat := fun _ => if t == "1" then some 44 else none
+    let M0 := MTLocale.idle gr th
+    let sch := MTLocale.overlapSchedule
+    let inRead := (M0.run (sch.take 2)).effective 1
+    let inWrite := (M0.run (sch.take 4)).effective 1
+    let inA := (M0.run (sch.take 5)).effective 0
+    let fin := M0.run sch
+    let kept := fin.thread 0 == th 0 && fin.thread 1 == th 1 && fin.globalRadix == gr
+    -- strtod stops at a '.' that is not the radix character
+    let val (r whole frac : Nat) : Nat := if r == 46 then whole * 1000 + frac else whole * 1000
+    (st, s!"1 {val inA 7 750} 1 {val inRead 1 500} {val inRead 2 250} " ++
+         hex (applyRadix inWrite (bytesOfString "a = 1.5;\nb = 2.25;\n")) ++ (if kept then " 1" else " 0"))
   | ["allochooks", k] =>
     -- C16 x C13: every hook attached is released exactly once by the time the configuration is destroyed, whichever
     -- allocation failed and jumped out of the library (C16_conservation + C16_destroy: the log of an operation and
